@@ -846,7 +846,8 @@ def do_indent(
     newline = "\n"
 
     if isinstance(s, Markup):
-        indention = Markup(indention)
+        # a plain string given as the indentation is not trusted
+        indention = escape(indention)
         newline = Markup(newline)
 
     s = s + newline  # this quirk is necessary for splitlines method
